@@ -17,26 +17,34 @@ Qed.
 Definition default_value (f : fld) : option pyval :=
   match f_default f with DValue d | DFactory d => Some d | DNone => None end.
 
+(* the fields an instance holds after construction: those bound by the constructor and those kept out of it that have a default *)
+Definition held (f : fld) : bool := f_init f || has_default f.
+
 Lemma fill_defaults_spec fs vals fields :
   fill_defaults fs vals = Some fields ->
   Forall2 (fun f nv => fst nv = f_name f /\
-                       snd nv = match field_get (f_name f) vals with
-                                | Some x => x
-                                | None => match default_value f with Some d => d | None => VNone end
-                                end /\
-                       (field_get (f_name f) vals = None -> default_value f <> None))
-          (filter f_init fs) fields.
+                       snd nv = (if f_init f
+                                 then match field_get (f_name f) vals with
+                                      | Some x => x
+                                      | None => match default_value f with Some d => d | None => VNone end
+                                      end
+                                 else match default_value f with Some d => d | None => VNone end) /\
+                       (f_init f = true -> field_get (f_name f) vals = None -> default_value f <> None))
+          (filter held fs) fields.
 Proof.
   revert fields. induction fs as [|f r IH]; intros fields H; simpl in *.
   - inversion H. constructor.
   - destruct (fill_defaults r vals) as [rest|]; [|discriminate].
-    destruct (f_init f); simpl in *; [|now apply IH].
-    destruct (field_get (f_name f) vals) as [x|] eqn:G.
-    + inversion H; subst. constructor; [|now apply IH]. simpl. rewrite G.
-      split; [reflexivity|]. split; [reflexivity|]. intros HH. discriminate HH.
-    + unfold default_value. destruct (f_default f) eqn:D; try discriminate; inversion H; subst;
-        (constructor; [|now apply IH]); simpl; rewrite G; unfold default_value; rewrite D;
-        (split; [reflexivity|]; split; [reflexivity|]; intros _; discriminate).
+    unfold held at 1. unfold has_default, default_value in *. destruct (f_init f) eqn:Fi; simpl in *.
+    + destruct (field_get (f_name f) vals) as [x|] eqn:G.
+      * inversion H; subst. constructor; [|now apply IH]. simpl. rewrite Fi, G.
+        split; [reflexivity|]. split; [reflexivity|]. intros _ HH. discriminate HH.
+      * destruct (f_default f) eqn:D; try discriminate; inversion H; subst;
+          (constructor; [|now apply IH]); simpl; rewrite Fi, G, D;
+          (split; [reflexivity|]; split; [reflexivity|]; intros _ _; discriminate).
+    + destruct (f_default f) eqn:D; inversion H; subst; try (now apply IH);
+        (constructor; [|now apply IH]); simpl; rewrite Fi, D;
+        (split; [reflexivity|]; split; [reflexivity|]; intros HH; discriminate HH).
 Qed.
 
 (* a required field that was not supplied makes construction impossible (never a silent hole) *)
